@@ -14,7 +14,7 @@ META = {
         "has a ticker rooted at to_uppercase, in both the DSL consumer and the JSON deserializer. R5 (index space): the tables "
         "shared by all securities (30-day claims, cost offsets) are keyed by a line's position in the whole list; an enumerate "
         "index used as such a key must be taken before any stage that drops elements (filter/skip/skip_while/rev). Does not decide that "
-        "report(all) is the combination of the per-security reports. R1 also: every quantity map of the matcher has a key type that tells securities apart (a String component or the global line index). R4 also: the consumer of every grammar rule with a ticker child obtains it through the ticker consumer. R6: the scans that find the end of a day compare dates only. R7: legs are grouped into disposals by the (date, ticker) key, not as contiguous runs (another security's legs between two legs of one disposal must not split it; shared with C06-R3/C04-R5)."),
+        "report(all) is the combination of the per-security reports. R1 also: every quantity map of the matcher has a key type that tells securities apart (a String component or the global line index). R4 also: the consumer of every grammar rule with a ticker child obtains it through the ticker consumer. R6: the scans that find the end of a day compare dates only. R7: legs are grouped into disposals by the (date, ticker) key, not as contiguous runs (another security's legs between two legs of one disposal must not split it; shared with C06-R3/C04-R5). R8: every line of a day is offered to the split handler and to pooling (shared with C01-R2): one remembered 'split of the day' would drop the other securities' splits."),
     "trusted_base": ["str::to_uppercase; HashMap keyed lookup", "rustc MIR + resolution"],
     "engines": ["mirfacts", "rules", "posctl"],
 }
